@@ -59,6 +59,10 @@ def make_cfg(seed, i, typ):
             cfg["user_params"]["init.run_in_parallel"] = True
             cfg["user_params"].pop("growing.ndirs_initial", None)
             cfg["args"].pop("npt", None)
+            if i % 12 == 4:
+                # the batch is evaluated before any of it is stored: a residual function that returns one re-used buffer must
+                # not end up with every stored point carrying the last evaluation's values
+                cfg["_forms"] = ["ret_samebuf"]
         if i % 3 == 2:
             # budget / exit enumeration over a long growing phase (its safety steps evaluate points and can end or restart the run)
             cfg = campaign.long_growing_cfg(rng, deterministic=False)
